@@ -95,3 +95,22 @@ Theorem C18_pragma_default : forall code line rest,
   process_pragma code = Ok (PLevel 1).
 Proof. exact pragma_default. Qed.
 Print Assumptions C18_pragma_default.
+
+(* a pragma line  #$ data_values_nest_level = <k>  (any natural number k, written
+   in decimal) as first line, followed by a body whose first line is not a pragma
+   line, sets the level to k ... *)
+Theorem C18_pragma_line_sets_level : forall k body,
+  match splitlines body with [] => True | line :: _ => starts_with_hash_dollar line = false end ->
+  process_pragma (pragma_line k ++ c_nl :: body) = Ok (PLevel (Z.of_N k)).
+Proof. exact pragma_line_sets_level. Qed.
+Print Assumptions C18_pragma_line_sets_level.
+
+(* ... and through the constructor (body: any text without $): the argument, when
+   given, wins over that pragma line; otherwise the pragma line decides *)
+Theorem C18_pragma_line_vs_argument : forall k body arg,
+  memb c_dollar body = false ->
+  match splitlines body with [] => True | line :: _ => starts_with_hash_dollar line = false end ->
+  effective_level arg (pragma_line k ++ c_nl :: body) =
+    Ok (PLevel (match arg with Some a => a | None => Z.of_N k end)).
+Proof. exact pragma_line_vs_argument. Qed.
+Print Assumptions C18_pragma_line_vs_argument.
